@@ -50,7 +50,7 @@ def case_st(draw):
     sc = draw(scen.scenario_st(SHAPES, measure="none", max_n=30, min_n=4, min_valid=2,
                                skew=False, weight_kinds=("none", "int", "dyadic", "dyadic")))
     sc["query"]["squared"] = draw(st.booleans())
-    tx, inforce = draw(xforms.slice_insertions_st(sc, where="transforms", max_ins=2,
+    tx, inforce = draw(xforms.slice_insertions_st(sc, where="transforms", max_ins=3,
                                                   allow_malformed=False, allow_diff=True))
     sc["transforms"] = tx
     sc["insertions"] = inforce
@@ -251,7 +251,7 @@ def means_case_st(draw):
                                min_valid=2, skew=False,
                                weight_kinds=("none", "int", "dyadic")))
     sc["query"]["measure"]["valid_counts"] = True
-    tx, inforce = draw(xforms.slice_insertions_st(sc, where="transforms", max_ins=2,
+    tx, inforce = draw(xforms.slice_insertions_st(sc, where="transforms", max_ins=3,
                                                   allow_malformed=False, allow_diff=False))
     sc["transforms"] = tx
     sc["insertions"] = inforce
